@@ -21,6 +21,8 @@ HELPERS = {
     "ident": (1, "def ident(v): return v"),
     # defaulted parameters, some of them given (always called with two arguments): binding of the rest to THEIR defaults
     "helper3": (2, "def helper3(a, b=4, c=9, v=70): return a + b * 2 - c * 5 + v"),
+    # a keyword-only parameter: the call cannot be inlined by substitution (front end and backend simplifier leave it a call)
+    "helper4": (1, "def helper4(a, *, k=3): return a * k + 1"),
 }
 
 
